@@ -150,6 +150,12 @@ def ref_eval_points(algo, u1, v1, a1, un, vn, an, prm):
 
 
 def run(ctx):
+    # 'for all step sequences including switching algorithm or step size between steps': no memo of a scheme-dependent quantity survives a change of the scheme
+    from ..shared import memo_rule as _memo_rule, cached_param_rule as _cached_param_rule
+
+    _scope = ("EasyFEA.Simulations._simu", "EasyFEA.Simulations.Solvers")
+    _memo_rule(ctx, "R5.8", scope=lambda f: f.module.name.startswith(_scope), min_instances=0)
+    _cached_param_rule(ctx, "R5.9", min_instances=20)
     repo = ctx.repo
     ctx.level = "proof"
     ctx.explanation = (
